@@ -10,7 +10,7 @@ RULE = ('PARSE: every string of <= k atoms over the LaTeX-significant atom alpha
         'model vs implementation: full tree dump with positions; oracle on the implementation: top-level nodes tile the input, '
         'children inside the parent in document order without overlap (arguments before body), chars/comment text = source slice, '
         'joined latex_verbatim() = input; for tolerant results: every node in range and nested; sig = outcome + node kinds')
-TRUSTED = ['expression arguments with allow_pre_space=False are outside the model (context D cases run through the oracle only)', 'tokenizer model (C11)', 'closed world of argument parsers: the standard argument types and the legacy verbatim parsers of the default context',
+TRUSTED = ['tokenizer model (C11)', 'closed world of argument parsers: the standard argument types and the legacy verbatim parsers of the default context',
            'parsing-state deltas returned by parsers are None/identity for these specifications and are not modelled']
 ASSUMPTIONS = ['construct nesting below the interpreter recursion limit (about 140 levels)']
 TRIVIAL_SIGS = ('none',)
